@@ -46,6 +46,21 @@ func C15(e *simkern.Env) {
 	if e.Tier == "thorough" {
 		opsPerClient = 4 + tp.Draw(12)
 	}
+	// one run in four puts the cache under pressure: one or two instances with a
+	// one-entry cache, several streams started at different instants and
+	// continued on the same instances, so that entries are evicted, replaced
+	// and re-inserted while their call tokens age at different rates
+	pressure := tp.Bool(1, 4)
+	if pressure {
+		nInst = 1 + tp.Draw(2)
+		caches = make([]int, nInst)
+		for i := range caches {
+			caches[i] = 1
+		}
+		nStreams = 2 + tp.Draw(3)
+		opsPerClient += 4 + tp.Draw(6)
+	}
+	e.Knob("cache_pressure", pressure)
 	e.Knob("ttl_s", int(ttl/time.Second))
 	e.Knob("caches", caches)
 	e.Knob("batch_limit", batchLimit)
@@ -253,7 +268,7 @@ func init() {
 	Registry["C15"] = &Info{
 		Run:   C15,
 		Level: "exploration",
-		Rule:  "each run draws TTL, 1-3 instances with cache sizes {default,0,1}, batch limit, 1-3 streams and 1-2 client tasks from the tape; clients issue init/continuation requests routed by tape while the scheduler interleaves them at woven lock sites and injects clock advances around the TTL and instance restarts; distinct = distinct schedule fingerprint; non-trivial = a continuation was judged after a clock advance or two tasks were runnable at once",
+		Rule:  "each run draws TTL, 1-3 instances with cache sizes {default,0,1}, batch limit, 1-3 streams and 1-2 client tasks from the tape (one run in four: 1-2 instances with one-entry caches, 2-4 streams and longer histories, so that entries are evicted and re-inserted while tokens age); clients issue init/continuation requests routed by tape while the scheduler interleaves them at woven lock sites and injects clock advances around the TTL and instance restarts; distinct = distinct schedule fingerprint; non-trivial = a continuation was judged after a clock advance or two tasks were runnable at once",
 		Real:  []string{"vgirpc.HttpServer (ServeHTTP, stream init/exchange, token seal/open, call-state cache)", "vgirpc.Server dispatch", "testing/synctest clock"},
 		Stub:  []string{"HTTP transport (direct ServeHTTP call, httptest recorder)", "load balancer (tape)", "protocol client (arrow-go IPC)", "scripted stream states"},
 		Quick: 600, Thorough: 60000,
